@@ -160,6 +160,7 @@ func c03World(t *testing.T, r *simcore.Run) any {
 	// receive time (the store identifies an exchange by address and receive time only);
 	// F02: a reply to a request sent from an earlier socket reached a later socket that was
 	// given the same port.
+	senderTag := map[uint64]string{} // which client goroutine sent a request
 	rxOwner := map[ntp.Time64]uint64{}
 	rxReused := false
 	staleSeen := map[string]bool{}
@@ -208,6 +209,7 @@ func c03World(t *testing.T, r *simcore.Run) any {
 			r.Fault("reply-header-mangled")
 		}
 		if d.SrcConn != nil && d.SrcConn.Host() == w.cli {
+			senderTag[d.ID] = simcore.Tag()
 			a := attempts[d.SrcConn]
 			if a == nil {
 				a = &c03Attempt{conn: d.SrcConn}
@@ -261,20 +263,17 @@ func c03World(t *testing.T, r *simcore.Run) any {
 				if o != nil && o.Src == Q.Src && o.SrcConn != Q.SrcConn {
 					site = "accept/stale-reply-on-reused-port"
 				}
-				// An interleaved request names its sender's previous kernel transmit timestamp. When the
-				// simulated kernel has given that very timestamp to two sends of this host (two clients
-				// that sent at the same virtual instant), a reply to the other client's request is not
-				// distinguishable from a reply to this one by anything the packets carry: the
-				// coincidence is the simulator's, not the client's.
-				same := 0
-				for _, sd := range w.sent {
-					if sd.OrigID == 0 && sd.SrcConn != nil && sd.SrcConn.Host() == w.cli && !sd.TxStamp.IsZero() && ntp.Time64FromTime(sd.TxStamp) == qp.TransmitTime {
-						same++
+				// An interleaved request names its sender's previous transmit timestamp (the kernel's, or
+				// a clock reading when the kernel's was missing). When two client objects of this host
+				// hold the same value - they sent, or read the clock, at the same virtual instant - a
+				// reply to the other client's request cannot be told from a reply to this one by
+				// anything the packets carry: the coincidence is the simulator's, not the client's.
+				// (One client re-sending an unchanged request - F02, F24 - is the same sender.)
+				if o != nil && senderTag[o.ID] != "" && senderTag[o.ID] != senderTag[Q.ID] {
+					if oq, ok := decodeNTP(o.Payload); ok && oq.TransmitTime == qp.TransmitTime {
+						r.Probe("two-clients-with-one-transmit-timestamp")
+						return
 					}
-				}
-				if same >= 2 {
-					r.Probe("two-sends-with-one-kernel-transmit-timestamp")
-					return
 				}
 				r.Fail("C03", site, "the client accepted reply %d, which answers request %d of an earlier attempt, for its request %d (port %v, port reuse %v)",
 					P.ID, c0.ID, Q.ID, Q.Src, w.net.ReusePorts)
